@@ -35,7 +35,7 @@ func c20Gen(t *rapid.T) C20Case {
 	return c
 }
 
-const c20Bound = 10 * time.Second
+const c20Bound = 20 * time.Second
 
 func c20Run(c C20Case, st *kit.Stats) error {
 	port := kit.FreePort()
